@@ -1,7 +1,15 @@
 T = "GeomV.C04."
+# T1: one module per tied Go function, so that a broken tie is reported as that obligation
+TIES = ["PointEquals", "NewBounds", "NewBoundsPoint", "Copy", "Empty", "ExtendPoint", "ExtendPoints", "ExtendPointss",
+        "Extend", "Overlaps", "Within", "Intersection", "Area", "Centroid",
+        "PointBounds", "MultiPointBounds", "LineStringBounds", "MultiLineStringBounds", "PolygonBounds", "MultiPolygonBounds", "Lens"]
+TIE_MODULES = [T + "Ties." + n for n in TIES]
+SRC_DEPS = {"Overlaps": ["Overlaps"], "Intersection": ["Intersection"], "Extend": ["Extend"],
+            "Basic": ["Empty", "Copy", "NewBounds", "NewBoundsPoint", "ExtendPoints"]}
+SRC_MODULES = [T + "Src." + n for n in SRC_DEPS]
 CFG = {
     "id": "C04",
-    "lean_modules": ["GeomV.C04.Proofs", "GeomV.C04.Ties", "GeomV.C04.Src"],
+    "lean_modules": ["GeomV.C04.Proofs"] + TIE_MODULES + SRC_MODULES,
     "exe": "geomv_c04",
     "go_cmd": "c04",
     "stages": ["go:gen", "go:impl", "lean:judge"],
@@ -20,6 +28,11 @@ CFG = {
         "C04_tie_pointEquals", "C04_tie_NewBounds", "C04_tie_NewBoundsPoint", "C04_tie_Copy", "C04_tie_Empty",
         "C04_tie_extendPoint", "C04_tie_extendPoints", "C04_tie_extendPointss", "C04_tie_Extend", "C04_tie_Overlaps",
         "C04_tie_Within", "C04_tie_Intersection", "C04_tie_Area", "C04_tie_Centroid",
+        # … and Bounds()/Len() of the non-collection geometry types = the corresponding case of boundsG / lenG (rfl)
+        "C04_tie_Point_Bounds", "C04_tie_MultiPoint_Bounds", "C04_tie_LineString_Bounds", "C04_tie_MultiLineString_Bounds",
+        "C04_tie_Polygon_Bounds", "C04_tie_MultiPolygon_Bounds",
+        "C04_tie_Point_Len", "C04_tie_MultiPoint_Len", "C04_tie_LineString_Len", "C04_tie_MultiLineString_Len",
+        "C04_tie_Polygon_Len", "C04_tie_MultiPolygon_Len", "C04_tie_Bounds_Len",
         # the box theorems restated for the regenerated definitions
         "C04_overlaps_src", "C04_intersection_src", "C04_extend_join_src", "C04_extend_laws_src", "C04_empty_src",
         "C04_copy_src", "C04_newBounds_src", "C04_extendPoints_src",
@@ -27,7 +40,7 @@ CFG = {
     "trusted_base": [
         "Lean 4.33.0 kernel; axioms of every theorem printed by #print axioms must be within {propext, Classical.choice, Quot.sound}",
         "T1: harness/cmd/c04/extract.go (go/ast, ~600 lines, translation table in its header) regenerates lean/GeomV/C04/Gen.lean from "
-        "bounds.go/point.go of the tree under test on every run; Ties.lean proves Gen.f = Model.f by rfl for 14 functions; a function "
+        "bounds.go/point.go/multipoint.go/linestring.go/multilinestring.go/polygon.go/multipolygon.go of the tree under test on every run; Ties/*.lean prove Gen.f = Model.f by rfl for 27 functions (bounds.go box functions, Point.Equals, Bounds()/Len() of the non-collection types); a function "
         "outside the translatable subset makes Gen.lean fail to elaborate and is reported by name",
         "model lean/GeomV/C04/Model.lean (bounds.go; Len/Points/Bounds of the eight types, closures as state machines with faulting "
         "indexing) is tied to /repo by the correspondence run on every check: Len, the drained Points() sequence (bit-exact) or the "
@@ -60,20 +73,22 @@ CFG = {
 
 
 def pregen(check):
-    """T1: regenerate Gen.lean from bounds.go/point.go of the tree under test (written only when it changed);
-    name the function of every tie that no longer holds."""
+    """T1: regenerate Gen.lean from bounds.go/point.go of the tree under test (written only when it changed).
+    A tie that no longer holds is reported by name and its module (and the Src module that rests on it)
+    is left out of the build, so that all other obligations are still checked and counted."""
     import os, re, subprocess
     import vcheck
+    cfg = check.cfg
+    def drop(mods, why):
+        cfg["lean_modules"] = [m for m in cfg["lean_modules"] if m not in mods]
+        check.broken.append(why)
     ok, gobin, out = vcheck.go_build("c04", check.rundir)
     if not ok:
         return  # reported as a broken tie by the harness build of the main flow
     p = subprocess.run([gobin, "extract", "--repo", vcheck.REPO], stdout=subprocess.PIPE, stderr=subprocess.PIPE, text=True)
     if p.returncode not in (0, 3) or not p.stdout.startswith("import"):
-        check.broken.append("T1 tie: extractor failed: " + p.stderr.strip()[-300:])
+        drop(TIE_MODULES + SRC_MODULES, "T1 tie: extractor failed: " + p.stderr.strip()[-300:])
         return
-    if p.returncode == 3:
-        # Gen.lean is still written: the untranslatable function is replaced by a declaration that does not elaborate
-        check.broken.append("T1 tie: " + p.stderr.strip()[-600:])
     gen = os.path.join(vcheck.LEAN, "GeomV", "C04", "Gen.lean")
     old = open(gen).read() if os.path.exists(gen) else ""
     if old != p.stdout:
@@ -81,26 +96,23 @@ def pregen(check):
             f.write(p.stdout)
         os.replace(gen + ".tmp", gen)
     if p.returncode == 3:
+        # Gen.lean was written with a declaration that does not elaborate in place of the function
+        drop(TIE_MODULES + SRC_MODULES, "T1 tie: " + p.stderr.strip()[-600:])
         return
-    # which ties hold?  (fast: Ties.lean is 14 rfl's)
     with vcheck.Lock("lake"):
-        b = subprocess.run(["lake", "build", "GeomV.C04.Gen"], cwd=vcheck.LEAN, stdout=subprocess.PIPE, stderr=subprocess.STDOUT, text=True)
-        if b.returncode != 0:
-            check.broken.append("T1 tie: regenerated Gen.lean does not elaborate: " + " | ".join(re.findall(r"error: .*", b.stdout)[:3]))
-            return
-        t = subprocess.run(["lake", "env", "lean", "GeomV/C04/Ties.lean"], cwd=vcheck.LEAN, stdout=subprocess.PIPE, stderr=subprocess.STDOUT, text=True)
-    if t.returncode != 0:
-        src = open(os.path.join(vcheck.LEAN, "GeomV", "C04", "Ties.lean")).read().split("\n")
-        names = []
-        for m in re.finditer(r"Ties\.lean:(\d+):\d+: error", t.stdout):
-            ln = int(m.group(1))
-            for k in range(ln - 1, -1, -1):
-                mm = re.match(r"theorem (C04_tie_\w+)", src[k])
-                if mm:
-                    if mm.group(1) not in names:
-                        names.append(mm.group(1))
-                    break
-        check.broken.append("T1 tie broken (the Go function no longer denotes the model's function): " + ", ".join(names or ["?"]))
+        b = subprocess.run(["lake", "build"] + TIE_MODULES + SRC_MODULES, cwd=vcheck.LEAN, stdout=subprocess.PIPE,
+                           stderr=subprocess.STDOUT, text=True)
+    if b.returncode == 0:
+        return
+    failed = set(re.findall(r"^- (\S+)", b.stdout, flags=re.M)) | set(re.findall(r"^✖ \[\d+/\d+\] Building (\S+)", b.stdout, flags=re.M))
+    if T + "Gen" in failed:
+        drop(TIE_MODULES + SRC_MODULES, "T1 tie: regenerated Gen.lean does not elaborate: " + " | ".join(re.findall(r"error: .*", b.stdout)[:3]))
+        return
+    bad_ties = [n for n in TIES if T + "Ties." + n in failed]
+    bad = [T + "Ties." + n for n in bad_ties]
+    bad += [T + "Src." + sname for sname, deps in SRC_DEPS.items() if T + "Src." + sname in failed or any(d in bad_ties for d in deps)]
+    drop(bad, "T1 tie broken: the Go function(s) %s no longer denote the model's function (modules left out: %s)"
+         % (", ".join(bad_ties) or "?", ", ".join(m[len(T):] for m in bad)))
 
 
 CFG["pregen"] = pregen
